@@ -24,3 +24,18 @@ open GoguVerif.Theorems.C20
 #print axioms waiting_trigger_coalesced
 -- delay
 #print axioms delay_never_early
+-- throttle: steps and positions
+#print axioms throttle_step_one_permission
+#print axioms trun_now
+#print axioms trun_grants_prefix
+#print axioms calls_positions
+#print axioms throttle_trigger_position
+-- delay: specification, at most once, not after stop, completeness
+#print axioms delay_ok
+#print axioms delay_at_most_once
+#print axioms delay_no_run_after_stop
+#print axioms delay_completeness
+-- the debounce monitor accepts the model
+#print axioms dmon_accepts_model
+-- the delay monitor accepts the model
+#print axioms lmon_accepts_model
